@@ -96,7 +96,7 @@ void runCase(long kk, uint64_t seed, bool th, Result& res) {
 #elif VC_EXEC == 3
 #if VC_ORD == 2
         {   // Hilbert: per-pair counts through the OpenMP target/source executor under shim schedules
-            vh::Rng r(vh::mix(s2, kk)); auto c = fmm::randomTsmConf<E>(r, vh::mix(s2, kk), 100, 1); res.desc = fmm::tsmDesc<E>(c) + " executor=TbfOpenmpAlgorithmTsm";
+            vh::Rng r(vh::mix(s2, kk)); auto c = fmm::randomTsmConf<E>(r, vh::mix(s2, kk), 60, 1); res.desc = fmm::tsmDesc<E>(c) + " executor=TbfOpenmpAlgorithmTsm";
             bool nt = false;
             for (const auto& sd : sch::schedulesFor(r, false, 0)) {
                 fmm::runSetTsm<E>(c, res, [&](auto& tree, const auto& cfg) { vsched::configure(sd.threads, sd.policy, sd.seed); auto a = std::make_unique<TbfOpenmpAlgorithmTsm<Real, typename E::SetKernel, Space>>(cfg, c.upper); a->execute(tree); }, nt, false);
@@ -111,7 +111,7 @@ void runCase(long kk, uint64_t seed, bool th, Result& res) {
 #else
 #if VC_ORD == 2
         {
-            vh::Rng r(vh::mix(s2, kk)); auto c = fmm::randomTsmConf<E>(r, vh::mix(s2, kk), 100, 1); res.desc = fmm::tsmDesc<E>(c) + " executor=TbfAlgorithmTsm";
+            vh::Rng r(vh::mix(s2, kk)); auto c = fmm::randomTsmConf<E>(r, vh::mix(s2, kk), 60, 1); res.desc = fmm::tsmDesc<E>(c) + " executor=TbfAlgorithmTsm";
             bool nt = false;
             fmm::runSetTsm<E>(c, res, [&](auto& tree, const auto& cfg) { TbfAlgorithmTsm<Real, typename E::SetKernel, Space> a(cfg, c.upper); a.execute(tree); }, nt, false);
             res.nontrivial = nt; res.sig = "tsm-hilbert:" + vh::str(vh::mix(c.seed, 4));
